@@ -812,9 +812,64 @@ def rule_args_blanks(model):
     return r
 
 
+def rule_one_table(model):
+    r = RuleResult('C07.R9', 'the three syntaxes compile with one command '
+                   'table: `commands` is defined once, on the base template '
+                   'class, updated in place, and never rebound on a class '
+                   'or an instance (a subclass with its own snapshot stops '
+                   'seeing tags registered on the base table)')
+    S = model.cls('DT_String', 'String')
+    if 'commands' not in S.attrs:
+        raise AnalysisError('C07.R9: String.commands not found')
+    r.instance('DT_String:String', 'commands = {...}', 'the table')
+    for ci in model.subclasses(S):
+        if 'commands' in ci.attrs:
+            r.instance(f'{ci.module.short}:{ci.name}', 'commands = ...',
+                       'OWN TABLE')
+            r.finding(f'{ci.module.short}:{ci.name}',
+                      f'class {ci.name}: commands = ...',
+                      'a template subclass defines its own command table: '
+                      'tags registered on String.commands are unknown in '
+                      'this syntax', node=ci.attrs['commands'], ctx=ci.module)
+    n = 0
+    for fi in model.all_funcs():
+        for x in own_nodes(fi.node):
+            tg = []
+            if isinstance(x, ast.Assign):
+                tg = x.targets
+            elif isinstance(x, (ast.AugAssign, ast.AnnAssign)):
+                tg = [x.target]
+            for t in tg:
+                if isinstance(t, ast.Attribute) and t.attr == 'commands':
+                    r.instance(fi.where, x, 'REBOUND')
+                    r.finding(fi.where, x, 'the command table is rebound '
+                              f'on `{norm(t.value)}` instead of being '
+                              'updated in place: that class (or instance) '
+                              'gets a snapshot of its own and no longer '
+                              'sees tags registered on String.commands '
+                              'afterwards, the syntaxes stop compiling '
+                              'the same set of tags', node=x, ctx=fi)
+                if isinstance(t, ast.Subscript) and isinstance(
+                        t.value, ast.Attribute) and \
+                        t.value.attr == 'commands':
+                    n += 1
+                    r.instance(fi.where, x, 'in-place update')
+            if isinstance(x, ast.Call) and isinstance(x.func, ast.Name) and \
+                    x.func.id == 'setattr' and len(x.args) >= 2 and \
+                    isinstance(x.args[1], ast.Constant) and \
+                    x.args[1].value == 'commands':
+                r.instance(fi.where, x, 'REBOUND')
+                r.finding(fi.where, x, 'the command table is rebound with '
+                          'setattr', node=x, ctx=fi)
+    if n < 1 and not r.findings:
+        raise AnalysisError('C07.R9: the in-place store of a lazily '
+                            'resolved command was not found')
+    return r
+
+
 RULES = [rule_overrides, rule_siblings, rule_groups, rule_entity,
          rule_widths, rule_scanner_twins, rule_epfs_language,
-         rule_args_blanks]
+         rule_args_blanks, rule_one_table]
 EXPLANATION = (
     'Override-set query on the template class hierarchy; comparison of the '
     'normalised decisions (returns, raises, tests) of the two parseTag '
